@@ -78,7 +78,7 @@ theorem wsUpgrade_ok (cfg : Cfg) (e : Env) (hcanon : e.canon = canonicalPath cfg
           | true =>
             rw [hv] at hperm
             simp only [hx]
-            have hsome : (who sw tok).isSome = true := by rw [← hwho]; rfl
+            have hsome : who sw tok = some name := hwho.symm
             cases sub with
             | rtsp => simp [hsome]
             | control => simp [hsome]
